@@ -147,7 +147,12 @@ class TriggerHandler:
         except BaseException:
             # whatever goes wrong in here must never be raised into the application (python would also remove the
             # trace function from this thread if we raise)
-            logging.exception("Cannot process trace event %s", event)
+            try:
+                logging.exception("Cannot process trace event %s", event)
+            except BaseException:
+                # when the application has all but used up its stack (a recursion about to hit the limit) our work
+                # fails with a RecursionError - and so does reporting that, which needs more stack than we have
+                pass
             return self.trace_call
 
     def _process_trace_call(self, frame: FrameType, event: str, arg):
